@@ -397,7 +397,11 @@ class Symex:
                     k = self.ev(t.slice)
                     try:
                         del obj[k]
-                    except (KeyError, IndexError, TypeError):
+                    except (KeyError, IndexError):
+                        if isinstance(obj, (dict, list)) and not isinstance(k, T):
+                            raise Raised("KeyError" if isinstance(obj, dict) else "IndexError", None, s)
+                        self.unsupported(s, "del of a missing key")
+                    except TypeError:
                         self.unsupported(s, "del of a missing key")
                 elif isinstance(t, ast.Name):
                     self.frames[-1].pop(t.id, None)
@@ -1240,7 +1244,9 @@ class Symex:
                     a = [f.bound] + a
                 frame = self.bind(fn, a, kw)
             self.frames, self.module = list(f.frames) + [frame], f.module
-            is_gen = any(isinstance(x, (ast.Yield, ast.YieldFrom)) for x in _walk_noscope(fn))
+            is_gen = getattr(fn, "_sx_is_gen", None)
+            if is_gen is None:      # cached on the node: the walk dominated concrete evaluations
+                is_gen = fn._sx_is_gen = any(isinstance(x, (ast.Yield, ast.YieldFrom)) for x in _walk_noscope(fn))
             try:
                 self.block(fn.body)
                 r = None
